@@ -1277,9 +1277,16 @@ impl Drop for Debugger {
 
         match self.debugee.execution_status() {
             ExecutionStatus::Unload => {
-                signal::kill(self.debugee.tracee_ctl().proc_pid(), Signal::SIGKILL)
-                    .expect("kill debugee");
-                waitpid(self.debugee.tracee_ctl().proc_pid(), None).expect("waiting child");
+                let proc_pid = self.debugee.tracee_ctl().proc_pid();
+                signal::kill(proc_pid, Signal::SIGKILL).expect("kill debugee");
+                // the killed tracee may report a ptrace stop (PTRACE_EVENT_EXIT) before it
+                // dies: wait until it is really gone, otherwise it is never reaped
+                loop {
+                    match waitpid(proc_pid, None).expect("waiting child") {
+                        WaitStatus::Exited(_, _) | WaitStatus::Signaled(_, _, _) => break,
+                        _ => _ = sys::ptrace::cont(proc_pid, None),
+                    }
+                }
             }
             ExecutionStatus::InProgress => {
                 // ignore all possible errors on breakpoints disabling
